@@ -73,6 +73,7 @@ fn thread_main(mut ctx: ThreadCtx) {
     mini_moka::verif::install(Some(ctx.hooks.clone() as Arc<dyn mini_moka::verif::Hooks>));
     let tid = ctx.tid;
     let sched = Arc::clone(&ctx.sched);
+    crate::sut::reset_variants();
     let r = catch_unwind(AssertUnwindSafe(|| {
         sched.thread_start(tid);
         // A stepped iterator borrows the thread's own cache clone; it is always dropped
@@ -97,11 +98,10 @@ fn thread_main(mut ctx: ThreadCtx) {
                         cache_ref.insert(K::tracked(*k, &ctx.reg), V::new(*vid, *w, &ctx.reg));
                         Res::Unit
                     }
-                    Op::Get { k } => Res::Got(cache_ref.get(&K::probe(*k)).map(|v| v.id)),
+                    Op::Get { k } => Res::Got(crate::sut::sync_get(cache_ref, &K::probe(*k))),
                     Op::Contains { k } => Res::Has(cache_ref.contains_key(&K::probe(*k))),
                     Op::Iter => {
-                        let mut v: Vec<(u16, u32)> =
-                            cache_ref.iter().map(|e| (e.key().k, e.value().id)).collect();
+                        let mut v: Vec<(u16, u32)> = crate::sut::sync_iter(cache_ref);
                         v.sort();
                         Res::Items(v)
                     }
